@@ -79,3 +79,31 @@ Definition agree_per (tag : list bool) (nf : nat) (pm : list (list Z)) (o : per_
   | (Err2 IndexErr2, a), PerIndexErr => Bool.eqb a assigned
   | _, _ => false
   end.
+
+(* ------------------------------------------------------------------------------------ *)
+(* the comparison of Model.C21.agree with the connection map checked on ALL cell pairs (cheap
+   for grids with few cells that share very many faces) *)
+Definition conn_agree_all (nc : nat) (cf : list ent) (L : list (Z * Z)) : bool :=
+  let cells := map Z.of_nat (seq 0 nc) in
+  forallb (fun i => forallb (fun j => Bool.eqb (conn_true cf i j) (mem2 (i, j) L)) cells) cells
+  && forallb (fun p => (0 <=? fst p) && (fst p <? Z.of_nat nc) && (0 <=? snd p) && (snd p <? Z.of_nat nc)) L.
+
+Definition agree_poly (dimg : Z) (nf nc : nat) (cf fn : list ent) (faces : list Z) (ddim : Z)
+           (o_dense : list Z * list Z) (o_conn : list (Z * Z)) (o_tag : list bool)
+           (o_sc : sc_out) (o_cn : list (Z * Z)) (o_div : div_out) : bool :=
+  let d := dense nf cf in
+  eqb_lz (fst d) (fst o_dense) && eqb_lz (snd d) (snd o_dense)
+  && conn_agree_all nc cf o_conn
+  && eqb_lb (bnd_tag dimg nf cf) o_tag
+  && match signs_cells cf faces, o_sc with
+     | Ok (s, c), ScOk s' c' => eqb_lz s s' && eqb_lz c c'
+     | Err ValueErr, ScErr => true
+     | _, _ => false
+     end
+  && set_agree (cn_true fn cf) (cn_struct fn cf) o_cn
+  && match divergence cf ddim, o_div with
+     | Ok m, DivOk m' => (length m =? length m')%nat && forallb (fun e => mem3 e m') m
+                         && forallb (fun e => mem3 e m) m'
+     | Err ValueErr, DivErr => true
+     | _, _ => false
+     end.
